@@ -62,7 +62,8 @@ class SimulationScenario():
         if "points" in dictionary:
             self.points = dictionary["points"]
             if model is not None:
-                self.model.points = self.points
+                # overlay the scenario's points on the model's own ones (the model keeps the points the scenario does not override)
+                self.model.points.update(self.points)
         else:
             self.points = {}
 
